@@ -526,7 +526,11 @@ impl<'a, E: Elem> GSerde<'a, E> {
         }
         let hint_ok = matches!(h0, None) || h0 == Some(n);
         let err_in_first_n = err_at.map_or(false, |k| k < n);
+        // a source that delivers exactly N but lies about what is left while reading (claims one more,
+        // or "nothing left" too early) is outside what the statement promises: either outcome
+        let running_truthful = matches!(running % N_RUNNING, 0 | 1);
         let expect_ok = hint_ok && c == n && !err_in_first_n;
+        let either_ok = hint_ok && c == n && !err_in_first_n && !running_truthful;
         // carve-out from the property text: surplus elements behind a source that reports
         // "nothing left" are by design not probed
         // (what the source reports once N elements have been delivered: for N = 0 that is
@@ -550,7 +554,7 @@ impl<'a, E: Elem> GSerde<'a, E> {
                     }
                     match (&res, expect_ok) {
                         (Ok(_), false) if !carve_out => fail("C17-wrong-length-accepted", format!("deserialising length {n} returned Ok for input offering {c} elements, up-front hint {h0:?}, running hint {}, element error at {err_at:?}", RUNNING_NAMES[running as usize])),
-                        (Err(e), true) => fail("C17-right-length-rejected", format!("deserialising length {n} rejected well-formed input of exactly {n} elements (up-front hint {h0:?}, running hint {}): {}", RUNNING_NAMES[running as usize], e.0)),
+                        (Err(e), true) if !either_ok => fail("C17-right-length-rejected", format!("deserialising length {n} rejected well-formed input of exactly {n} elements (up-front hint {h0:?}, running hint {}): {}", RUNNING_NAMES[running as usize], e.0)),
                         _ => {}
                     }
                     if carve_out {
@@ -569,10 +573,6 @@ impl<'a, E: Elem> GSerde<'a, E> {
     pub fn op_de_real(&mut self, cx: &mut Cx, a: [u32; N_ARGS]) {
         let li = lens_idx(a[0]);
         let n = LENS[li];
-        if n > 100 {
-            cx.ops_noop += 1;
-            return;
-        }
         let offered = (n + (a[1] as usize % 3)).saturating_sub(1); // N-1, N, N+1
         let format = a[2] % 3;
         let vals: Vec<u32> = infra(|| (0..offered as u32).map(|i| 7000 + i).collect());
